@@ -98,6 +98,11 @@ def sliceFull (s : PIdx) (n : Int) : Bool :=
     (match a with | none => true | some v => v == 0) &&
     (match b with | none => true | some v => v == n)
 
+/-- `roi_is_full` over an N-D roi: `all(slice_full(s, n) for s, n in zip(roi, shape))`.  The shape enters as
+its sequence of values only (tuple, list, `Shape2d`, any `Sequence`). -/
+def roiIsFull (roi : List PIdx) (shape : List Int) : Bool :=
+  (roi.zip shape).all (fun p => sliceFull p.1 p.2)
+
 /-- `roi_center`'s `slice_center` -/
 def sliceCenter (s : PIdx) : Res Rat := do
   let s ← normSliceOrError s
@@ -107,6 +112,14 @@ def sliceCenter (s : PIdx) : Res Rat := do
 def padSlice (s : PIdx) (pad : Int) (n : Int) : NSlice :=
   let s := normSlice s n
   ⟨max 0 (s.start - pad), min n (s.stop + pad)⟩
+
+/-- `roi_normalise` over an N-D roi: `tuple(_norm_slice(s, n) for s, n in zip(roi, shape))` -/
+def roiNormalise (roi : List PIdx) (shape : List Int) : List NSlice :=
+  (roi.zip shape).map (fun p => normSlice p.1 p.2)
+
+/-- `roi_pad` over an N-D roi: `tuple(pad_slice(s, n) for s, n in zip(roi, shape))` -/
+def roiPad (roi : List PIdx) (pad : Int) (shape : List Int) : List NSlice :=
+  (roi.zip shape).map (fun p => padSlice p.1 pad p.2)
 
 /-! ### alignment and scaling (math.py:105-122, roi.py:397-441) -/
 
